@@ -155,6 +155,7 @@ def init_fs(vc, w):
 
 class FsWorld(EM.World):
     def inode_at(self, pid):
+        self._live()
         pid = SInt.of(pid)
         ino = SInt(z3.Select(self.ent, pid.t))
         vc = cur()
@@ -172,6 +173,7 @@ class FsWorld(EM.World):
         return EM.World.new_inode(self, vc, content)
 
     def is_dir(self, pid):
+        self._live()
         return SBool(z3.Select(self.dirs, SInt.of(pid).t))
 
     def set_entry(self, pid, ino):
@@ -179,6 +181,36 @@ class FsWorld(EM.World):
 
     def set_dir(self, pid, v):
         self.dirs = z3.Store(self.dirs, SInt.of(pid).t, z3.BoolVal(v) if isinstance(v, bool) else SBool.of(v).t)
+
+
+class FrozenWorld:
+    """Immutable view of a world state (the SMT arrays at one instant): what quantified clauses must close over."""
+
+    def __init__(self, w):
+        self.ent, self.dirs, self.idata, self.isync, self.next_ino = w.ent, w.dirs, w.idata, w.isync, w.next_ino
+        self.db_table = getattr(getattr(w, 'db', None), 'table', None)
+
+    def inode_at(self, pid):
+        return SInt(z3.Select(self.ent, SInt.of(pid).t))
+
+    def is_dir(self, pid):
+        return SBool(z3.Select(self.dirs, SInt.of(pid).t))
+
+    def data(self, ino):
+        return SBytes(z3.simplify(z3.Select(self.idata, SInt.of(ino).t)))
+
+    def synced(self, ino):
+        return SInt(z3.Select(self.isync, SInt.of(ino).t))
+
+
+def snap(w):
+    return w if isinstance(w, FrozenWorld) else FrozenWorld(fs_of(w))
+
+
+def fs_of(w):
+    if not hasattr(w, 'ent'):
+        init_fs(cur(), w)
+    return w
 
 
 def as_path(I, p):
